@@ -165,7 +165,7 @@ func c06Senders(a *An, rule string) {
 	}
 	addRoot(ro.Ctor, "constructor")
 	addRoot(reader, "reader")
-	for _, m := range ro.apiRoots() {
+	for _, m := range a.apiRoots() {
 		addRoot(m, "API "+m.Name())
 	}
 	var keys []string
